@@ -38,6 +38,8 @@ class AltVlq:
                 return self.orig(n)
             self.hit = True
             canon = self.orig(n)
+            if self.mode.startswith("value:"):
+                return self.orig(int(self.mode[6:]))       # canonical encoding of ANOTHER number at this position
             if self.mode == "pad1":
                 return b"\x80" + canon
             if self.mode == "pad3":
@@ -254,6 +256,37 @@ class Lane:
         import skepticoin.datatypes as dt
         return dt.BlockHeader(summary, dt.PowEvidence(b"\x00" * 32, b"\x00" * 32, b"\x00" * 32))
 
+    def lane_long_lists(self, n):
+        """lists of 1000+ elements (legal: a transaction with ~1980 inputs still fits a block) and length prefixes that
+        announce another count than the number of elements that follow"""
+        g, rng = self.g, self.rng
+        import skepticoin.datatypes as dt
+        for _ in range(n):
+            k = rng.choice([999, 1000, 1001, 1024, 1500, 1900])
+            which = rng.choice(["inputs", "outputs", "transactions"])
+            if which == "inputs":
+                val = dt.Transaction([g.input(rng) for _i in range(k)], [g.output(rng)])
+                name, enc = "Transaction", lambda: bridge.real_to_rtx(val).enc()
+            elif which == "outputs":
+                val = dt.Transaction([g.input(rng)], [g.output(rng) for _i in range(k)])
+                name, enc = "Transaction", lambda: bridge.real_to_rtx(val).enc()
+            else:
+                tiny = [dt.Transaction([g.input(rng)], []) for _i in range(k)]
+                val = dt.Block(g.block_header(rng), tiny)
+                name, enc = "Block", lambda: bridge.real_to_rblock(val).enc()
+            self.c["long_lists"] = self.c.get("long_lists", 0) + 1
+            self.roundtrip(val, self.dec[name], name)
+            b = val.serialize()
+            occ_of_list = {"inputs": 0, "outputs": 1, "transactions": 1}[which]
+            for other in (k + 1, k - 1, 1000, 1001, 5000, 1 << 40):
+                if other == k:
+                    continue
+                with AltVlq(occ_of_list, "value:%d" % other) as alt:
+                    mb = enc()
+                if alt.hit and mb != b:
+                    # the announced count differs from the elements present: give the decoder enough (random) continuation
+                    self.offer(mb + objgen.rb(rng, 200), "count-altered")
+
     # ---------------- lane C (store)
     def lane_c_store(self, n):
         import skepticoin.datatypes as dt
@@ -322,6 +355,7 @@ def run_shard(spec):
     lane.lane_a(1500 if quick else 40000)
     lane.lane_b(220 if quick else 6000)
     lane.lane_c_store(40 if quick else 600)
+    lane.lane_long_lists(2 if quick else 40)
     return lane.result()
 
 
@@ -338,6 +372,7 @@ def finalize(m, tier):
                    ("vlq textbook-minimal alternatives offered", c.get("B_by_mutation", {}).get("vlq-minimal", 0), 300),
                    ("textbook-minimal list prefixes offered", c.get("B_minimal_list_prefix", 0), 40),
                    ("ids checked", c.get("C_ids_checked", 0), 5000),
-                   ("ids from store", c.get("C_ids_from_store", 0), 100)],
+                   ("ids from store", c.get("C_ids_from_store", 0), 100), ("long_lists", c.get("long_lists", 0), 20),
+                   ("count-altered strings", c.get("B_by_mutation", {}).get("count-altered", 0), 60)],
         "extra": {},
     }
